@@ -381,6 +381,11 @@ class Walker:
         ws, brk, cont = self.block(body, [w0])
         if ws:
             self.exits.append(('fall', self.fnode, ws))
+        # when a loop body is analysed on its own, continue/break leave it too
+        if cont:
+            self.exits.append(('continue', self.fnode, cont))
+        if brk:
+            self.exits.append(('break', self.fnode, brk))
         return self
 
     def kill(self, w, names):
